@@ -267,6 +267,81 @@ theorem infer_exact_minimal (sg : Bool) (vals : List ℚ) (hne : vals ≠ []) (F
         exact ⟨_, hmmem, km, hkm, h2⟩
       · exact ⟨_, hMmem, kM, hkM, by simpa using h1⟩
 
+/-- **C06, only `n_word` given**: the fraction length is the largest that still leaves room for the integer part,
+capped at the exact one. Here `nf` is the exact fraction length (fewest bits making every value exact) and `nint` the
+fewest integer bits holding every exactly-scaled value; the inferred format is `(n_word, min (n_word - sign - nint) nf)`. -/
+theorem infer_nword_given (sg : Bool) (vals : List ℚ) (hne : vals ≠ []) (F : ℕ) (hF : F ≤ 62)
+    (hgrid : ∀ v ∈ vals, IsInt (v * 2 ^ F)) (wq w f : ℤ) (hwq : wq ≤ 64)
+    (hb : bestSizes sg vals (some wq) none = (w, f)) :
+    ∃ nf nint : ℕ,
+      (∀ v ∈ vals, IsInt (v * 2 ^ nf)) ∧ (nf = 0 ∨ ∃ v ∈ vals, ¬ IsInt (v * 2 ^ (nf - 1))) ∧
+      (∀ v ∈ vals, ∃ k : ℤ, v * 2 ^ nf = k ∧ Chk.fitsBits k (max (nf + nint) nf) = true) ∧
+      (nint = 0 ∨ ∃ v ∈ vals, ∃ k : ℤ, v * 2 ^ nf = k ∧ Chk.fitsBits k (nf + nint - 1) = false) ∧
+      w = wq ∧ f = min (wq - (if sg then 1 else 0) - nint) nf := by
+  set sign : ℕ := if sg then 1 else 0 with hsign
+  have hs1 : sign ≤ 1 := by rw [hsign]; split <;> omega
+  set nfN := maxNat (vals.map (fracBits sign)) with hnfN
+  have hall : ∀ v ∈ vals, IsInt (v * 2 ^ nfN) := by
+    intro v hv
+    have h1 := (fracBits_min sign hs1 v F hF (hgrid v hv)).1
+    exact isInt_mul_pow (maxNat_ge _ _ (List.mem_map.mpr ⟨v, hv, rfl⟩)) h1
+  obtain ⟨hMmem, hMge⟩ := listMaxR_spec vals hne
+  obtain ⟨hmmem, hmle⟩ := listMinR_spec vals hne
+  obtain ⟨kM, hkM⟩ := hall _ hMmem
+  obtain ⟨km, hkm⟩ := hall _ hmmem
+  have hcastpow : (((2 ^ ((nfN : ℤ)).toNat : ℕ)) : ℚ) = 2 ^ nfN := by
+    rw [Int.toNat_natCast]; push_cast; rfl
+  have hvmax : truncInt (listMaxR vals * ((2 ^ ((nfN : ℤ)).toNat : ℕ) : ℚ)) = kM := by
+    rw [hcastpow, hkM, truncInt_int]
+  have hvmin : truncInt (listMinR vals * ((2 ^ ((nfN : ℤ)).toNat : ℕ) : ℚ)) = km := by
+    rw [hcastpow, hkm, truncInt_int]
+  set bits := intLoop (kM.natAbs + km.natAbs + 2) kM km 0 with hbits
+  obtain ⟨⟨fM, fm⟩, hminbits⟩ := intBits_min kM km
+  have hbs : bestSizes sg vals (some wq) none =
+      (min wq nWordMax, min (wq - sign - max ((bits : ℤ) - nfN) 0) nfN) := by
+    unfold bestSizes
+    simp only [← hsign, ← hnfN, hvmax, hvmin, ← hbits]
+  rw [hbs] at hb
+  obtain ⟨hw', hf'⟩ := (Prod.mk.injEq _ _ _ _).mp hb
+  unfold nWordMax at hw'
+  set nintN : ℕ := bits - nfN with hnint
+  have hnintZ : max ((bits : ℤ) - nfN) 0 = (nintN : ℤ) := by omega
+  rw [hnintZ] at hf'
+  refine ⟨nfN, nintN, hall, ?_, ?_, ?_, by omega, ?_⟩
+  · rcases maxNat_mem (vals.map (fracBits sign)) (by simpa using hne) with hmem | h0
+    · obtain ⟨v, hv, hfv⟩ := List.mem_map.mp hmem
+      by_cases hz : nfN = 0
+      · left; exact hz
+      · right
+        exact ⟨v, hv, (fracBits_min sign hs1 v F hF (hgrid v hv)).2 (nfN - 1) (by rw [hfv, ← hnfN]; omega)⟩
+    · left; rw [hnfN]; exact h0
+  · intro v hv
+    obtain ⟨k, hk⟩ := hall v hv
+    have hp : (0:ℚ) < 2 ^ nfN := by positivity
+    have hk1 : km ≤ k := by
+      have : listMinR vals * 2 ^ nfN ≤ v * 2 ^ nfN := mul_le_mul_of_nonneg_right (hmle v hv) (le_of_lt hp)
+      rw [hkm, hk] at this; exact_mod_cast this
+    have hk2 : k ≤ kM := by
+      have : v * 2 ^ nfN ≤ listMaxR vals * 2 ^ nfN := mul_le_mul_of_nonneg_right (hMge v hv) (le_of_lt hp)
+      rw [hkM, hk] at this; exact_mod_cast this
+    have hfit := fitsBits_between km kM k bits hk1 hk2 fm fM
+    refine ⟨k, hk, ?_⟩
+    have hle : bits ≤ max (nfN + nintN) nfN := by omega
+    exact fitsBits_mono k hle hfit
+  · by_cases hz : nintN = 0
+    · left; exact hz
+    · right
+      have hlt : nfN + nintN - 1 < bits := by omega
+      have hnot := hminbits (nfN + nintN - 1) hlt
+      by_cases h1 : Chk.fitsBits kM (nfN + nintN - 1) = true
+      · have h2 : Chk.fitsBits km (nfN + nintN - 1) = false := by
+          cases hh : Chk.fitsBits km (nfN + nintN - 1)
+          · rfl
+          · exact absurd ⟨h1, hh⟩ hnot
+        exact ⟨_, hmmem, km, hkm, h2⟩
+      · exact ⟨_, hMmem, kM, hkM, by simpa using h1⟩
+  · rw [← hf', hsign]; congr 2; split <;> simp
+
 /-- if `n_int` is given with one other size, the third follows arithmetically (no search). -/
 theorem infer_nint_arith (sg : Bool) (vals : List ℚ) (wq fq i : ℤ) :
     (inferFmt (some sg) none (some fq) (some i) vals =
